@@ -35,6 +35,9 @@ DAY = 86400
 # An op is (api, args tuple, kwargs dict); api in set / clear / signed.
 def apply_op(handler, op):
     api, args, kw = op
+    if api == "error":
+        import tornado.web
+        raise tornado.web.HTTPError(args[0])       # the handler ends in an error page: cookies set so far still go out
     if api == "set":
         handler.set_cookie(*args, **kw)
     elif api == "clear":
@@ -120,6 +123,8 @@ def ref_program(prog):
     """name -> (value, attrs) of the last setting of every name."""
     final = {}
     for op in prog:
+        if op[0] == "error":
+            break                          # nothing after it is executed
         name, value, attrs = ref_setting(op)
         final[name] = (op[0], value, attrs)
     return final
@@ -141,11 +146,14 @@ def build_app(box):
     class Set(tornado.web.RequestHandler):
         def get(self):
             for op in box.prog:
+                if op[0] == "error":
+                    box.rec.append("ok")
                 try:
                     apply_op(self, op)
                     box.rec.append("ok")
                 except Exception as e:
-                    box.rec.append(type(e).__name__)
+                    if op[0] != "error":
+                        box.rec.append(type(e).__name__)
                     raise
             self.write("BODY")
 
@@ -226,7 +234,8 @@ def judge(prog, res, notes):
     r = res.resps[0]
     if rejected:
         return None                       # the call raised: nothing promised about cookies
-    if r.code != 200:
+    want_code = 403 if any(op[0] == "error" for op in prog) else 200
+    if r.code != want_code:
         if r.code == 500 and not res.cookies:
             notes.append("either:rejected-at-flush-with-clean-error-page")
             return None
@@ -278,7 +287,7 @@ def judge(prog, res, notes):
             return ("value-readback-differs",
                     "sent back %r, request.cookies = %r, set %r=%r" % (
                         name_b + b"=" + val_b, res.read, name, value))
-    if set(res.read) != set(final):
+    if res.read is not None and set(res.read) != set(final):
         return "extra-cookie-read-back", "request.cookies = %r, set %r" % (res.read, sorted(final))
     return None
 
@@ -393,9 +402,11 @@ def p_ops():
                 ("set", (n, "2"), {"domain": "x"}),
                 ("set", (n, "3"), {"httponly": True, "secure": True, "samesite": "Lax"}),
                 ("set", (n, "4"), {"max_age": 5, "path": "/p"}),
+                ("set", (n, "2"), {}),                      # the same value as above, without its attributes
                 ("clear", (n,), {}),
                 ("clear", (n,), {"path": "/p"}),
                 ("signed", (n, "5"), {})]
+    ops.append(("error", (403,), {}))
     return ops
 
 
